@@ -1,6 +1,8 @@
 """Denotations over exact finite domains: byte sets, small integer sets, structural
 evaluation of constant expressions from their typed-HIR trees.  Nothing is executed;
 an expression outside the supported forms raises Unanalysable (rules fail closed)."""
+import os
+
 from .core import AnalysisIncomplete, peel, last_seg
 
 INF = float('inf')
@@ -709,6 +711,12 @@ class Interp:
                 return ('ctor', p, tuple(args))
             if f.get('res', '') == 'SelfCtor' and e.get('t'):
                 return ('ctor', (e.get('t') or '').split('<')[0], tuple(args))         # `Self(..)` of a tuple struct
+            if p.split('::<')[0] in ('core::iter::sources::once::once', 'core::iter::once') and len(args) == 1:
+                return ('iter', [args[0]])
+            if p.split('::<')[0] in ('core::iter::sources::repeat::repeat', 'core::iter::repeat') and len(args) == 1:
+                return ('iterinf', [], args[0])          # finitely many elements, then one element for ever
+            if p.split('::<')[0] in ('core::iter::sources::empty::empty', 'core::iter::empty') and not args:
+                return ('iter', [])
             if seg == 'from' and len(args) == 1:
                 return args[0]
             if p.split('::<')[0] == 'alloc::vec::Vec' and seg in ('new', 'with_capacity'):
@@ -811,6 +819,23 @@ class Interp:
             if isinstance(recv, tuple) and len(recv) == 3 and recv[0] == 'range' and isinstance(recv[1], int) and isinstance(recv[2], int) and \
                     name in ('rev', 'zip', 'map', 'filter', 'collect', 'count', 'sum', 'enumerate', 'take', 'skip', 'any', 'all', 'for_each', 'into_iter', 'iter'):
                 recv = ('iter', list(range(recv[1], recv[2] + 1)))          # a bounded integer range iterates over its values
+            if isinstance(recv, tuple) and name in ('for_each', 'try_for_each') and not (recv and isinstance(recv[0], str) and recv[0] in ('ctor', 'struct', 'range', 'closure', 'iter', 'rec', 'opaque', 'elem')):
+                recv = ('iter', list(recv))          # a stubbed `iter_mut()` given as a plain tuple of elements
+            if isinstance(recv, tuple) and len(recv) == 2 and recv[0] == 'iter' and name == 'chain' and len(args) == 1:
+                o = args[0]
+                if isinstance(o, tuple) and len(o) == 3 and o[0] == 'iterinf':
+                    return ('iterinf', list(recv[1]) + list(o[1]), o[2])
+                ys = o.rest() if isinstance(o, IterObj) else list(o[1]) if isinstance(o, tuple) and len(o) == 2 and o[0] == 'iter' else list(o.items) if isinstance(o, VecObj) else None
+                if ys is not None:
+                    return ('iter', list(recv[1]) + ys)
+            if isinstance(recv, tuple) and len(recv) == 2 and recv[0] == 'iter' and name == 'zip' and len(args) == 1 and isinstance(args[0], tuple) and len(args[0]) == 3 and args[0][0] == 'iterinf':
+                fin, rest_ = args[0][1], args[0][2]
+                return ('iter', [(x, fin[i] if i < len(fin) else rest_) for i, x in enumerate(recv[1])])
+            if isinstance(recv, tuple) and len(recv) == 3 and recv[0] == 'iterinf' and name == 'zip' and len(args) == 1:
+                o = args[0]
+                ys = o.rest() if isinstance(o, IterObj) else list(o[1]) if isinstance(o, tuple) and len(o) == 2 and o[0] == 'iter' else list(o.items) if isinstance(o, VecObj) else None
+                if ys is not None:
+                    return ('iter', [(recv[1][i] if i < len(recv[1]) else recv[2], y) for i, y in enumerate(ys)])
             if isinstance(recv, tuple) and len(recv) == 2 and recv[0] == 'iter':
                 xs = recv[1]
                 truth = lambda c, x: bool(self.apply(c, [x]))
@@ -843,6 +868,31 @@ class Interp:
                     if name == 'skip':
                         return ('iter', xs[args[0]:])
                     return opt(xs[args[0]] if 0 <= args[0] < len(xs) else None)
+                if name in ('for_each', 'try_for_each') and len(args) == 1 and isinstance(args[0], tuple) and args[0] and args[0][0] in ('closure', 'recfn', 'pyfn'):
+                    for x in xs:
+                        r = self.apply(args[0], [x])
+                        if name == 'try_for_each' and isinstance(r, tuple) and len(r) >= 2 and r[0] == 'ctor' and r[1] in ('core::result::Result::Err', 'core::option::Option::None',
+                                                                                                                            'core::ops::control_flow::ControlFlow::Break'):
+                            return r
+                    if name == 'for_each':
+                        return ()
+                    rt = e.get('t') or ''
+                    return ('ctor', 'core::option::Option::Some' if rt.startswith('core::option::Option') else 'core::result::Result::Ok', ((),))
+                if name == 'flatten' and not args:
+                    out = []
+                    for x in xs:
+                        if isinstance(x, tuple) and len(x) >= 2 and x[0] == 'ctor' and x[1].startswith('core::option::Option::'):
+                            if x[1].endswith('::Some'):
+                                out.append(x[2][0])
+                        elif isinstance(x, tuple) and len(x) == 2 and x[0] == 'iter':
+                            out.extend(x[1])
+                        elif isinstance(x, IterObj):
+                            out.extend(x.rest())
+                        elif isinstance(x, VecObj):
+                            out.extend(x.items)
+                        else:
+                            raise Unanalysable('flatten over elements the evaluator does not model')
+                    return ('iter', out)
                 if name in ('try_fold', 'fold') and len(args) == 2 and isinstance(args[1], tuple) and args[1] and args[1][0] in ('closure', 'recfn', 'pyfn'):
                     acc = args[0]
                     for x in xs:
@@ -1032,6 +1082,14 @@ class Interp:
                         return recv[2][0]
                     raise EvalPanic(f'{name}() on {last_seg(recv[1])} (line {e.get("l")})')
                 if recv[1] in (OK, ERR):
+                    if name == 'map_or_else' and len(args) == 2:
+                        return self.apply(args[1], [recv[2][0]]) if recv[1] == OK else self.apply(args[0], [recv[2][0]])
+                    if name == 'map_or' and len(args) == 2:
+                        return self.apply(args[1], [recv[2][0]]) if recv[1] == OK else args[0]
+                    if name == 'unwrap_or_else' and len(args) == 1:
+                        return recv[2][0] if recv[1] == OK else self.apply(args[0], [recv[2][0]])
+                    if name == 'unwrap_or' and len(args) == 1:
+                        return recv[2][0] if recv[1] == OK else args[0]
                     if name == 'map_err' and len(args) == 1:
                         return recv if recv[1] == OK else ('ctor', ERR, (self.apply(args[0], [recv[2][0]]),))
                     if name == 'map' and len(args) == 1:
@@ -1067,6 +1125,24 @@ class Interp:
                     return self.apply(args[0], [recv[2][0]]) if some else recv
                 if name == 'filter' and len(args) == 1:
                     return recv if some and self.apply(args[0], [recv[2][0]]) else ('ctor', 'core::option::Option::None')
+                if name == 'flatten' and not args:
+                    return recv[2][0] if some else recv
+                if name == 'zip' and len(args) == 1 and isinstance(args[0], tuple) and len(args[0]) >= 2 and args[0][0] == 'ctor' and args[0][1].startswith('core::option::Option::'):
+                    o = args[0]
+                    return ('ctor', 'core::option::Option::Some', ((recv[2][0], o[2][0]),)) if some and o[1].endswith('::Some') else ('ctor', 'core::option::Option::None')
+                if name in ('or', 'xor') and len(args) == 1 and isinstance(args[0], tuple) and len(args[0]) >= 2 and args[0][0] == 'ctor' and args[0][1].startswith('core::option::Option::'):
+                    if name == 'or':
+                        return recv if some else args[0]
+                    osome = args[0][1].endswith('::Some')
+                    return recv if some and not osome else args[0] if osome and not some else ('ctor', 'core::option::Option::None')
+                if name == 'or_else' and len(args) == 1 and not some:
+                    return self.apply(args[0], [])
+                if name == 'or_else' and len(args) == 1 and some:
+                    return recv
+                if name in ('is_some_and', 'is_none_or') and len(args) == 1:
+                    return (bool(self.apply(args[0], [recv[2][0]])) if some else False) if name == 'is_some_and' else (bool(self.apply(args[0], [recv[2][0]])) if some else True)
+                if name in ('then_some',) and False:
+                    pass
                 if name in ('ok_or', 'ok_or_else') and len(args) == 1:
                     if some:
                         return ('ctor', 'core::result::Result::Ok', recv[2])
@@ -1210,6 +1286,42 @@ class Interp:
         cands = idx.get((rel, e.get('l'))) or []
         if not cands and e.get('m') == 'writeln':
             return '\n'               # `writeln!(w)`
+        if not cands and e.get('l'):
+            # inside the body of a macro_rules! the source facts have no format-string census (the body is a token tree): the literal is read from the source line
+            try:
+                import re as _re
+                with open(file if os.path.isabs(file) else os.path.join(facts.repo, file), encoding='utf-8') as fh:
+                    lines = fh.read().split('\n')
+                seg = '\n'.join(lines[e['l'] - 1:e['l'] + 3])
+                mm = _re.search(r'\b(?:write|writeln|format|print|println)!\s*\(\s*(?:[A-Za-z_][A-Za-z0-9_.]*\s*,\s*)?("(?:[^"\\]|\\.)*")', seg)
+                if mm:
+                    cands = [{'lit': mm.group(1)}]
+            except OSError:
+                pass
+        if not cands and e.get('l'):
+            # the call sits in the expansion of one of the workspace's macro_rules!: the line is the invocation, the literal is in the macro's body
+            try:
+                import re as _re
+                with open(file if os.path.isabs(file) else os.path.join(facts.repo, file), encoding='utf-8') as fh:
+                    src_text = fh.read()
+                line = src_text.split('\n')[e['l'] - 1]
+                inv = _re.search(r'\b([A-Za-z_][A-Za-z0-9_]*)!\s*[\(\[\{]', line)
+                if inv:
+                    dm = _re.search(r'macro_rules!\s*' + _re.escape(inv.group(1)) + r'\s*\{', src_text)
+                    if dm:
+                        depth, i0 = 0, dm.end() - 1
+                        j0 = i0
+                        while j0 < len(src_text):
+                            depth += src_text[j0] == '{'
+                            depth -= src_text[j0] == '}'
+                            j0 += 1
+                            if depth == 0:
+                                break
+                        lits = set(_re.findall(r'\b(?:write|writeln|format)!\s*\(\s*(?:[A-Za-z_][A-Za-z0-9_.]*\s*,\s*)?("(?:[^"\\]|\\.)*")', src_text[i0:j0]))
+                        if len(lits) == 1:
+                            cands = [{'lit': lits.pop()}]
+            except (OSError, IndexError):
+                pass
         if len(cands) != 1:
             raise Unanalysable(f'format string at {rel}:{e.get("l")} not found ({len(cands)} candidates)')
         lit = cands[0]['lit']
